@@ -450,3 +450,89 @@ theorem kw_matches {W : CSet} {r : Re} {sets : List CSet} (hk : kwSets r = some 
   | _ => simp [kwSets] at hk
 
 end MindsVerif.Re
+
+namespace MindsVerif.Re
+
+/-! ### the back-quoted branch inside a text: the closing quote is followed by something that is not a quote -/
+
+theorem bq_star_rest (W Q N : CSet) (q : Nat) (rest : List Nat) (hrest : ∀ c t, rest = c :: t → Q.mem c = false)
+    {step : Pos → (Pos → Option Pos) → Option Pos} {kq : Pos → Option Pos}
+    (hstep : ∀ p k, step p k = m W (bqItem Q N) p k) (hk : ∀ p, kq p = m W (.set Q) p some) :
+    ∀ (body : List Nat) (pre : List Nat) (n : Nat), BqOK Q N q body →
+    (bqBody q body).length + 1 < n →
+    starLoop step true n ⟨pre, bqBody q body ++ q :: rest⟩ kq = some ⟨q :: ((bqBody q body).reverse ++ pre), rest⟩ := by
+  intro body
+  induction body with
+  | nil =>
+    intro pre n hok hn
+    cases n with
+    | zero => omega
+    | succ n =>
+      simp only [bqBody, List.nil_append, starLoop, if_true]
+      rw [hstep, hk]
+      unfold bqItem
+      rw [m_alt, m_set_cons, if_neg (by simp [hok.nq]), m_seq, m_set_cons, if_pos hok.qq, m_set_cons, if_pos hok.qq]
+      cases rest with
+      | nil => simp [m, Option.orElse]
+      | cons c t =>
+        have := hrest c t rfl
+        simp [m, this, Option.orElse]
+  | cons c t ih =>
+    intro pre n hok hn
+    have hokt : BqOK Q N q t := ⟨hok.qq, hok.nq, fun d hd hne => hok.nn d (List.mem_cons_of_mem _ hd) hne⟩
+    cases n with
+    | zero => omega
+    | succ n =>
+      by_cases hc : c = q
+      · subst hc
+        have hlen : (bqBody c t).length + 1 < n := by simp [bqBody] at hn; omega
+        have := ih (c :: c :: pre) n hokt hlen
+        simp only [bqBody, if_true, List.cons_append, starLoop]
+        rw [hstep]
+        simp only [bqItem, m, hok.nq, hok.qq, Bool.false_eq_true, if_false, if_true]
+        have hlt : (bqBody c t ++ c :: rest).length < (c :: c :: (bqBody c t ++ c :: rest)).length := by simp <;> omega
+        simp only [hlt, if_true, this]
+        simp [Option.orElse]
+      · have hN : N.mem c = true := hok.nn c List.mem_cons_self hc
+        have hlen : (bqBody q t).length + 1 < n := by simp [bqBody, hc] at hn; omega
+        have := ih (c :: pre) n hokt hlen
+        simp only [bqBody, hc, if_false, List.cons_append, starLoop, if_true]
+        rw [hstep]
+        simp only [bqItem, m, hN, if_true]
+        have hlt : (bqBody q t ++ q :: rest).length < (c :: (bqBody q t ++ q :: rest)).length := by simp <;> omega
+        simp only [hlt, if_true, this]
+        simp [Option.orElse]
+
+theorem bqRe_match_rest (W Q N : CSet) (q : Nat) (rest : List Nat) (hrest : ∀ c t, rest = c :: t → Q.mem c = false)
+    (body : List Nat) (hne : body ≠ []) (hok : BqOK Q N q body) (pre : List Nat) :
+    matchAt W (bqRe Q N) ⟨pre, q :: (bqBody q body ++ q :: rest)⟩
+      = some ⟨q :: ((bqBody q body).reverse ++ q :: pre), rest⟩ := by
+  cases body with
+  | nil => exact absurd rfl hne
+  | cons c t =>
+    have hokt : BqOK Q N q t := ⟨hok.qq, hok.nq, fun d hd hne => hok.nn d (List.mem_cons_of_mem _ hd) hne⟩
+    unfold matchAt bqRe
+    rw [m_seq, m_set_cons, if_pos hok.qq, m_seq, m_seq]
+    by_cases hc : c = q
+    · subst hc
+      have := bq_star_rest W Q N c rest hrest (step := fun p k' => m W (bqItem Q N) p k') (kq := fun p2 => m W (.set Q) p2 some)
+        (fun _ _ => rfl) (fun _ => rfl) t (c :: c :: c :: pre) ((bqBody c t ++ c :: rest).length + 1) hokt (by simp <;> omega)
+      have e : bqBody c (c :: t) ++ c :: rest = c :: c :: (bqBody c t ++ c :: rest) := by simp [bqBody]
+      rw [e]
+      unfold bqItem
+      rw [m_alt, m_set_cons, if_neg (by simp [hok.nq]), m_seq, m_set_cons, if_pos hok.qq, m_set_cons, if_pos hok.qq, m_star]
+      unfold bqItem at this
+      rw [this]
+      simp [Option.orElse, bqBody]
+    · have hN : N.mem c = true := hok.nn c List.mem_cons_self hc
+      have := bq_star_rest W Q N q rest hrest (step := fun p k' => m W (bqItem Q N) p k') (kq := fun p2 => m W (.set Q) p2 some)
+        (fun _ _ => rfl) (fun _ => rfl) t (c :: q :: pre) ((bqBody q t ++ q :: rest).length + 1) hokt (by simp <;> omega)
+      have e : bqBody q (c :: t) ++ q :: rest = c :: (bqBody q t ++ q :: rest) := by simp [bqBody, hc]
+      rw [e]
+      unfold bqItem
+      rw [m_alt, m_set_cons, if_pos hN, m_star]
+      unfold bqItem at this
+      rw [this]
+      simp [Option.orElse, bqBody, hc]
+
+end MindsVerif.Re
